@@ -62,6 +62,8 @@ let () =
            | ["affix"; g; p] -> M.CAffix (n g, n p)
            | ["prot"; g; k] -> M.CProtect (n g, prot_of_int (int_of_string k))
            | ["rewrite"; g] -> M.CRewrite (n g)
+           | ["renupdb"; g; users] ->
+             M.CRenameUpdb (n g, if users = "-" then [] else List.map n (String.split_on_char ',' users))
            | _ -> failwith "bad call") in
          let (r, s') = M.gen_exec s c in
          let ch l = String.concat "," (List.filter (fun x -> x <> "") (List.mapi (fun i v -> if v <> M.O then string_of_int i else "") l)) in
